@@ -37,6 +37,8 @@ def child(mode='await', k=0, depth=2, raising=None, actor=True, sync_child=False
         hc += [['sleep', 'd2']]
         if raising == 'child':
             hc += [['raise', 'ValueError']]
+        elif raising == 'child_chained':
+            hc += [['raise_chained', 'ValueError']]
         else:
             hc += [['ret', 'c']]
     handlers = [['A', 'P', 'hP', hp], ['A', 'C', 'hC', hc, {'sync': sync_child}], ['A', 'L', 'hL', [['ret', 'l']]],
@@ -848,3 +850,62 @@ def spawned_child_between_handlers(first_sync=True, parallel=False):
     handlers = [['A', 'P', 'hP0', first, {'sync': first_sync}], ['A', 'P', 'hP1', [['sleep', 'd1'], ['ret', 'worked']]]]
     main = [['root', 'A', 'P', 'P1'], ['await', 'P1'], ['obs', 'after_await', 'P1'], ['idle', 'A'], ['sleep', '1/2'], ['obs_all', 'end']]
     return dict(buses=['A'], parallel=['A'] if parallel else [], reals={'d1': D}, handlers=handlers, main=main, horizon=6)
+
+
+
+def par_same_named_handlers():
+    """parallel bus; two handlers of P carry the same function name (closures from one factory; bubus only warns), the first one
+    registered is the slow one; another event is queued behind.  Nothing of the next event may start while either is running."""
+    handlers = [['A', 'P', 'hDup', [['sleep', 'd1'], ['ret', 'slow']]], ['A', 'P', 'hDup', [['sleep', 'd2'], ['ret', 'fast']]],
+                ['A', 'L', 'hL', [['ret', 'l']]], ['B', 'X', 'hX', [['ret', 'x']]]]
+    main = [['root', 'B', 'X', 'X0'], ['idle', 'B'], ['root', 'A', 'P', 'P1'], ['root', 'A', 'L', 'L1'], ['root', 'B', 'X', 'X1'],
+            ['sleep', '1'], ['obs_all', 'end']]
+    return dict(buses=['A', 'B'], order=['A', 'B'], parallel=['A'], reals={'d1': D, 'd2': ['0', '1/10']}, handlers=handlers, main=main, horizon=6)
+
+
+def warm_other_bus_during_await(order=('A', 'B')):
+    """B has already processed events (its run loop has been through the global lock before); a handler of A awaits a slow child on
+    A while an external task dispatches an unrelated event to B: it must wait until the child (and A's handler) are done."""
+    handlers = [['A', 'P', 'hP', [['sleep', 'd1'], ['dispawait', 'A', 'C', 'C1'], ['ret', 'p']]], ['A', 'C', 'hC', [['sleep', 'd2'], ['ret', 'c']]],
+                ['B', 'X', 'hX', [['ret', 'x']]]]
+    main = [['root', 'B', 'X', 'X0'], ['idle', 'B'], ['root', 'B', 'X', 'X00'], ['idle', 'B'], ['root', 'A', 'P', 'P1'], ['await', 'P1'],
+            ['idle', 'A'], ['idle', 'B'], ['obs_all', 'end']]
+    return dict(buses=['A', 'B'], order=list(order), reals={'d1': D, 'd2': D, 't_x': TI}, handlers=handlers, main=main,
+                actors={'x': [['sleep', 't_x'], ['root', 'B', 'X', 'X1']]}, horizon=6)
+
+
+def timeout_bystander():
+    """an unrelated root event X1 with a slow handler is queued behind the timed parent P1; P's handler awaits a child, which (on
+    this tree, F0) runs X1 inline first; P's time-out can fire while X1's handler runs.  X1 is nobody's child: it must still
+    complete (with an error result) and an external await on it must return."""
+    handlers = [['A', 'P', 'hP', [['dispawait', 'A', 'C', 'C1'], ['sleep', 'd1'], ['ret', 'p']]], ['A', 'C', 'hC', [['sleep', 'd2'], ['ret', 'c']]],
+                ['A', 'X', 'hX', [['sleep', 'd3'], ['ret', 'x']]], ['A', 'L', 'hL', [['ret', 'l']]]]
+    main = [['root', 'A', 'P', 'P1'], ['root', 'A', 'X', 'X1'], ['await', 'X1'], ['obs', 'after_await', 'X1'], ['root', 'A', 'L', 'L1'], ['await', 'P1'], ['idle', 'A'], ['obs_all', 'end']]
+    return dict(buses=['A'], reals={'d1': ['0', '3/5'], 'd2': ['0', '3/5'], 'd3': ['0', '3/5']}, handlers=handlers, main=main, timeouts={'P1': '1/4'}, T='1/4', horizon=6)
+
+
+def cyclic_redispatch():
+    """a "retry" pattern that makes the event graph cyclic: P's handler fires C without awaiting it, C's handler dispatches the very
+    same P object again (P becomes a child of C: P -> C -> P)."""
+    handlers = [['A', 'P', 'hP', [['disp', 'A', 'C', 'C_{inv}'], ['ret', 'p']]], ['A', 'C', 'hC', [['sleep', 'd1'], ['redispatch', 'A', 'P1'], ['ret', 'c']]],
+                ['A', 'L', 'hL', [['ret', 'l']]]]
+    main = [['root', 'A', 'P', 'P1'], ['idle', 'A'], ['root', 'A', 'L', 'L1'], ['idle', 'A'], ['obs_all', 'end']]
+    return dict(buses=['A'], reals={'d1': D}, handlers=handlers, main=main, horizon=6)
+
+
+def accessor_timeout_in_handler():
+    """a handler dispatches a child and reads it through event_result(timeout=...) (the README pattern) instead of awaiting it;
+    on this tree nobody can process the child meanwhile, so the accessor times out, the handler carries on and returns; the child
+    and a later event then run strictly one after the other."""
+    handlers = [['A', 'P', 'hP', [['disp', 'A', 'C', 'C1'], ['accessor', 'C1', {'timeout': 0.25}], ['sleep', 'd1'], ['ret', 'p']]],
+                ['A', 'C', 'hC', [['sleep', 'd2'], ['ret', 'c']]], ['A', 'L', 'hL', [['sleep', 'd1'], ['ret', 'l']]]]
+    main = [['root', 'A', 'P', 'P1'], ['root', 'A', 'L', 'L1'], ['idle', 'A'], ['obs_all', 'end']]
+    return dict(buses=['A'], reals={'d1': ['0', '1/5'], 'd2': ['0', '1/2']}, handlers=handlers, main=main, horizon=6)
+
+
+def fw_stop_source_with_timeout():
+    """A forwards to B whose handler is slow; while it runs, main stops A gracefully with stop(timeout=0.3): A itself has nothing
+    left to do, the call must come back within its time-out plus the fixed grace period."""
+    handlers = [['A', 'P', 'hA', [['ret', 'a']]], ['B', 'P', 'hB', [['sleep', 'd2'], ['ret', 'b']]], ['B', 'X', 'hXB', [['ret', 'x']]]]
+    main = [['root', 'B', 'X', 'X0'], ['idle', 'B'], ['root', 'A', 'P', 'P1'], ['sleep', 't1'], ['stop', 'A', {'timeout': 0.3}], ['idle', 'B'], ['obs_all', 'end']]
+    return dict(buses=['A', 'B'], order=['A', 'B'], reals={'d2': ['0', '2'], 't1': ['0', '1/5']}, handlers=handlers, forwards=[['A', 'B']], main=main, horizon=9)
